@@ -1,6 +1,7 @@
 (* SpecScan.v — the scan-level properties (C01-C04, C06-C12, C15, C19, C20) as boolean checkers over one scan:
-   the pre-scan snapshot and a journal of calls (the model's or the implementation's).  Prop statements and the
-   theorems that the model's journal always passes are in proofs/Scan*.v. *)
+   the pre-scan snapshot and a journal of calls (the model's or the implementation's).  The theorems that the
+   model's journal passes every checker for every input, and the Prop readings of the checkers, are in
+   proofs/Scan*.v and Properties/Cxx.v. *)
 From Esc Require Export Scan.
 
 (* ---------- the context of one group's scan, computed from the snapshot only ---------- *)
@@ -9,44 +10,78 @@ Record gctx := {
   x_nodes : list node; x_pods : list pod; x_cls : classes
 }.
 
-Definition mk_ctx (s : snapshot) (g : group_in) : gctx :=
+(* the context of group g scanned at instant now against cloud group a, from the listed objects *)
+Definition ctx_of (now : Z) (gdry : bool) (api : list node) (g : group_in) (a : option asg)
+           (all_nodes : list node) (all_pods : list pod) : gctx :=
   let o := gi_opts g in
-  let a := find_asg (s_cloud s) (o_asg o) in
-  let '(mn, mx) := match a with Some a => effective_min_max o a | None => (o_min o, o_max o) end in
-  let dry := s_dry s || o_dry o in
-  let nodes := group_nodes o (s_nodes s) in
+  let mm := match a with Some a => effective_min_max o a | None => (o_min o, o_max o) end in
+  let dry := gdry || o_dry o in
+  let nodes := group_nodes o all_nodes in
   let st1 := match nodes with n :: _ => with_cache (gi_state g) (first_alloc n) | [] => gi_state g end in
-  {| x_env := {| e_now := s_now s; e_dry := s_dry s; e_api := s_api s; e_korc := gi_korc g; e_aorc := gi_aorc g;
+  {| x_env := {| e_now := now; e_dry := gdry; e_api := api; e_korc := gi_korc g; e_aorc := gi_aorc g;
                  e_descinst_fail := gi_descinst_fail g |};
-     x_opts := o; x_st := st1; x_dry := dry; x_min := mn; x_max := mx; x_asg := a;
-     x_nodes := nodes; x_pods := group_pods o (s_pods s); x_cls := filter_nodes dry st1 nodes |}.
+     x_opts := o; x_st := st1; x_dry := dry; x_min := fst mm; x_max := snd mm; x_asg := a;
+     x_nodes := nodes; x_pods := group_pods o all_pods; x_cls := filter_nodes dry st1 nodes |}.
+
+Definition mk_ctx (s : snapshot) (g : group_in) : gctx :=
+  ctx_of (s_now s) (s_dry s) (s_api s) g (find_asg (s_cloud s) (o_asg (gi_opts g))) (s_nodes s) (s_pods s).
+
+(* the model's scan of the group a context describes *)
+Definition scan_of (now : Z) (gdry : bool) (api : list node) (g : group_in) (a : option asg)
+           (all_nodes : list node) (all_pods : list pod) : gresult :=
+  let x := ctx_of now gdry api g a all_nodes all_pods in
+  scan_group (x_env x) (x_opts x) (x_min x) (x_max x) (gi_state g) a all_nodes all_pods.
 
 Definition find_node (nodes : list node) (name : id) : option node := find (fun n => n_name n =? name) nodes.
 
-(* the node of the view backed by the instance with this id in the group's cloud group *)
-Definition node_of_instance (x : gctx) (inst : bytes) : option node :=
+(* ---------- which node of the view a call is about ---------- *)
+(* Kubernetes calls name the node; a terminate call names the instance that backs it in the group's cloud group *)
+Definition backs (x : gctx) (inst : bytes) (n : node) : bool :=
   match x_asg x with
-  | None => None
-  | Some a => find (fun n => match backing_instance a (n_pid n) with Some i => bytes_eqb (i_id i) inst | None => false end) (x_nodes x)
+  | Some a => match backing_instance a (n_pid n) with Some i => bytes_eqb (i_id i) inst | None => false end
+  | None => false
   end.
+
+Definition node_matches (x : gctx) (c : call) (n : node) : bool :=
+  match c with
+  | CK (KGet m _) | CK (KUpdate m _ _) | CK (KDelete m _) => n_name n =? m
+  | CA (ATermInAsg inst _ _) => backs x inst n
+  | _ => false
+  end.
+
+(* the call is about some node of the group's view that satisfies P *)
+Definition targets (x : gctx) (P : node -> bool) (c : call) : bool :=
+  existsb (fun n => node_matches x c n && P n) (x_nodes x).
 
 (* ---------- projections of a journal ---------- *)
 Definition is_removal (c : call) : bool :=
   match c with CK (KDelete _ _) => true | CA (ATermInAsg _ _ _) => true | _ => false end.
-Definition is_taint_write (c : call) : bool :=     (* an update whose payload carries the escalator taint *)
-  match c with CK (KUpdate _ p _) => has_esc p | _ => false end.
-Definition is_untaint_write (c : call) : bool :=
-  match c with CK (KUpdate _ p _) => negb (has_esc p) | _ => false end.
+Definition is_node_write (c : call) : bool :=
+  match c with CK (KUpdate _ _ _) => true | CK (KDelete _ _) => true | CA (ATermInAsg _ _ _) => true | _ => false end.
 Definition is_cloud_increase (c : call) : bool :=
   match c with CA (ASetDesired _ _ _ _) => true | CA (ACreateFleet _ _ _ _ _ _ _ _) => true | _ => false end.
 Definition writes (calls : list call) : list call := filter call_is_write calls.
 
-Definition taint_ok_targets (calls : list call) : list id :=
-  concat (map (fun c => match c with CK (KUpdate n p true) => if has_esc p then [n] else [] | _ => [] end) calls).
-Definition untaint_ok_targets (calls : list call) : list id :=
-  concat (map (fun c => match c with CK (KUpdate n p true) => if has_esc p then [] else [n] | _ => [] end) calls).
+Definition api_copy (x : gctx) (name : id) : option node := api_lookup (e_api (x_env x)) name.
 
-Fixpoint nodupb (l : list id) : bool := match l with [] => true | x :: l' => negb (mem_id x l') && nodupb l' end.
+(* an update that makes the taint list longer than the API server's copy adds a taint; any other update is an
+   untaint write (a node may carry a second taint with the escalator key, so the key alone does not tell) *)
+Definition longer_than_copy (x : gctx) (name : id) (p : node) : bool :=
+  match api_copy x name with
+  | Some u => Nat.ltb (length (n_taints u)) (length (n_taints p))
+  | None => true
+  end.
+Definition is_taint_write (x : gctx) (c : call) : bool :=
+  match c with CK (KUpdate n p _) => longer_than_copy x n p | _ => false end.
+Definition is_untaint_write (x : gctx) (c : call) : bool :=
+  match c with CK (KUpdate n p _) => negb (longer_than_copy x n p) | _ => false end.
+
+Definition taint_ok_targets (x : gctx) (calls : list call) : list id :=
+  concat (map (fun c => match c with CK (KUpdate n p true) => if longer_than_copy x n p then [n] else [] | _ => [] end) calls).
+Definition untaint_ok_targets (x : gctx) (calls : list call) : list id :=
+  concat (map (fun c => match c with CK (KUpdate n p true) => if longer_than_copy x n p then [] else [n] | _ => [] end) calls).
+
+Fixpoint nodupb (l : list id) : bool := match l with [] => true | y :: l' => negb (mem_id y l') && nodupb l' end.
 
 (* ---------- C01 / C10 ---------- *)
 Definition grace_ok (x : gctx) (n : node) : bool :=
@@ -61,20 +96,14 @@ Definition removable (x : gctx) (n : node) : bool :=
   negb (x_dry x) && negb (n_unsched n)
   && ((has_esc n && grace_ok x n) || (has_force n && (node_pods_remaining (x_pods x) n =? 0))).
 
-Definition removal_target (x : gctx) (c : call) : option node :=
-  match c with
-  | CK (KDelete n _) => find_node (x_nodes x) n
-  | CA (ATermInAsg inst _ _) => node_of_instance x inst
-  | _ => None
-  end.
-
+(* every terminate / delete call is about a node of the view that is removable *)
 Definition check_C01_group (x : gctx) (calls : list call) : bool :=
-  forallb (fun c => if is_removal c then match removal_target x c with Some n => removable x n | None => false end else true) calls.
+  forallb (fun c => if is_removal c then targets x (removable x) c else true) calls.
 
-(* C10: a protected node (non-empty annotation, no force taint) is in no removal call *)
+(* C10: every removal call is about a node that is not protected (non-empty annotation and no force taint) *)
 Definition protected (n : node) : bool := safe_from_deletion n && negb (has_force n).
 Definition check_C10_group (x : gctx) (calls : list call) : bool :=
-  forallb (fun c => if is_removal c then match removal_target x c with Some n => negb (protected n) | None => false end else true) calls.
+  forallb (fun c => if is_removal c then targets x (fun n => negb (protected n)) c else true) calls.
 
 (* ---------- C02 ---------- *)
 Definition in_cooldown (x : gctx) : bool := lock_since (g_lock (x_st x)) (e_now (x_env x)) <? o_cool (x_opts x).
@@ -99,7 +128,7 @@ Definition check_C02_group (x : gctx) (calls : list call) (post : gstate) : bool
 Definition in_class (l : list node) (name : id) : bool := existsb (fun n => n_name n =? name) l.
 
 Definition check_C03_group (x : gctx) (calls : list call) : bool :=
-  let t := taint_ok_targets calls in
+  let t := taint_ok_targets x calls in
   let u := zlen (c_untainted (x_cls x)) in
   (* taint receivers are distinct members of the untainted class of the view *)
   nodupb t && forallb (in_class (c_untainted (x_cls x))) t
@@ -107,7 +136,7 @@ Definition check_C03_group (x : gctx) (calls : list call) : bool :=
   && (match t with [] => true | _ => x_min x <=? u - zlen t end)
   (* below the minimum (node count within bounds): nothing is tainted *)
   && (if (x_min x <=? zlen (x_nodes x)) && (zlen (x_nodes x) <=? x_max x) && (u <? x_min x)
-      then negb (existsb is_taint_write calls) else true).
+      then negb (existsb (is_taint_write x) calls) else true).
 
 (* ---------- C04 ---------- *)
 (* the cached desired size at the time of each call: it follows the scan's own accepted terminations *)
@@ -160,24 +189,24 @@ Definition trigger_fires (x : gctx) : bool :=
 (* no API failure is injected for this group and every node's API copy equals its listed copy *)
 Definition api_faithful (x : gctx) : bool :=
   (match ko_get_fail (e_korc (x_env x)), ko_update_fail (e_korc (x_env x)) with [], [] => true | _, _ => false end)
-  && forallb (fun n => match api_lookup (e_api (x_env x)) (n_name n) with Some m => node_eqb m n | None => false end) (x_nodes x).
+  && forallb (fun n => match api_copy x (n_name n) with Some m => node_eqb m n | None => false end) (x_nodes x).
 
 Definition check_C06_group (x : gctx) (calls : list call) : bool :=
   let u := zlen (c_untainted (x_cls x)) in
-  let ntaint := zlen (taint_ok_targets calls) in
-  let quiet_up := negb (existsb is_untaint_write calls) && negb (existsb is_cloud_increase calls) in
+  let ntaint := zlen (taint_ok_targets x calls) in
+  let quiet_up := negb (existsb (is_untaint_write x) calls) && negb (existsb is_cloud_increase calls) in
   let target rate := Z.max 0 (Z.min rate (u - x_min x)) in
   match band_of x with
   | BNone => true
   | b =>
-    if trigger_fires x then negb (existsb is_taint_write calls)
+    if trigger_fires x then negb (existsb (is_taint_write x) calls)
     else match b with
          | BLow => quiet_up && (ntaint <=? target (o_fast (x_opts x)))
                    && (if api_faithful x && negb (x_dry x) then ntaint =? target (o_fast (x_opts x)) else true)
          | BMid => quiet_up && (ntaint <=? target (o_slow (x_opts x)))
                    && (if api_faithful x && negb (x_dry x) then ntaint =? target (o_slow (x_opts x)) else true)
-         | BQuiet => quiet_up && negb (existsb is_taint_write calls)
-         | _ => negb (existsb is_taint_write calls)
+         | BQuiet => quiet_up && negb (existsb (is_taint_write x) calls)
+         | _ => negb (existsb (is_taint_write x) calls)
          end
   end.
 
@@ -213,9 +242,9 @@ Definition check_C07_group (x : gctx) (calls : list call) : bool :=
     && (if existsb is_cloud_increase calls then
           (* buying capacity: every tainted node of the view was tried first, and whatever stayed tainted failed *)
           forallb (fun n => mem_id (n_name n) (got_names before)
-                            && (mem_id (n_name n) (untaint_ok_targets before) || mem_id (n_name n) (failed_names before)
+                            && (mem_id (n_name n) (untaint_ok_targets x before) || mem_id (n_name n) (failed_names before)
                                 || (* the API copy carried no taint: nothing to write, counted as untainted *)
-                                   match api_lookup (e_api (x_env x)) (n_name n) with Some m => negb (has_esc m) | None => false end))
+                                   match api_copy x (n_name n) with Some m => negb (has_esc m) | None => false end))
                   tainted
         else true).
 
@@ -224,31 +253,22 @@ Definition check_C08_group (x : gctx) (calls : list call) : bool :=
   if x_dry x then true
   else
     let unt := c_untainted (x_cls x) in
-    let t := taint_ok_targets calls in
+    let t := taint_ok_targets x calls in
     forallb (fun y => if mem_id (n_name y) t then
         forallb (fun z => if mem_id (n_name z) t then true
                           else if n_created z <? n_created y
                                then mem_id (n_name z) (failed_names calls)
                                     || (* already tainted according to the API server: no write needed *)
                                        (mem_id (n_name z) (got_names calls)
-                                        && match api_lookup (e_api (x_env x)) (n_name z) with Some m => has_esc m | None => false end)
+                                        && match api_copy x (n_name z) with Some m => has_esc m | None => false end)
                                else true) unt
       else true) unt.
 
 (* ---------- C09 ---------- *)
-Definition call_target (x : gctx) (c : call) : option node :=
-  match c with
-  | CK (KGet n _) | CK (KUpdate n _ _) | CK (KDelete n _) => find_node (x_nodes x) n
-  | CA (ATermInAsg inst _ _) => node_of_instance x inst
-  | _ => None
-  end.
-
+(* outside dry mode every update, delete and terminate is about a node of the view that is not cordoned *)
 Definition check_C09_group (x : gctx) (calls : list call) : bool :=
   if x_dry x then true
-  else forallb (fun c => match c with
-                         | CK (KUpdate _ _ _) | CK (KDelete _ _) | CA (ATermInAsg _ _ _) =>
-                             match call_target x c with Some n => negb (n_unsched n) | None => false end
-                         | _ => true end) calls.
+  else forallb (fun c => if is_node_write c then targets x (fun n => negb (n_unsched n)) c else true) calls.
 
 (* ---------- C11 ---------- *)
 Definition check_C11_group (x : gctx) (calls : list call) : bool :=
@@ -283,10 +303,10 @@ Fixpoint drop_first_esc (l : list taint) : list taint :=
   match l with [] => [] | t :: l' => if t_key t =? id_esc_key then l' else t :: drop_first_esc l' end.
 
 Definition check_update (x : gctx) (name : id) (p : node) : bool :=
-  match api_lookup (e_api (x_env x)) name with
+  match api_copy x name with
   | None => false
   | Some u =>
-    if has_esc p then
+    if Nat.ltb (length (n_taints u)) (length (n_taints p)) then
       (* a taint write: exactly one taint appended to a copy that had none, nothing else touched *)
       negb (has_esc u)
       && node_eqb p (set_taints u (n_taints u ++ [new_taint (now_sec (x_env x)) (o_effect (x_opts x))]))
@@ -303,48 +323,50 @@ Definition check_C15_group (x : gctx) (calls : list call) : bool :=
 (* The journal is read as runs of terminate calls followed by blocks of Node deletes.  A delete block must name, in
    order, the nodes of a suffix of the terminate run directly before it, every terminate of that suffix accepted
    (a batch is a suffix of the run: an earlier batch that stopped early leaves its accepted terminates in front);
-   the block may stop early only on a failed delete. *)
+   the block may stop early only on a failed delete.  A terminate call is recorded by the provider id it stands
+   for: the run holds, per call, the names of the view's nodes the instance backs and whether it was accepted. *)
 Definition is_kdelete (c : call) : bool := match c with CK (KDelete _ _) => true | _ => false end.
 
+Definition backed_names (x : gctx) (inst : bytes) : list id := map n_name (filter (backs x inst) (x_nodes x)).
+
 (* the longest all-accepted suffix of a terminate run *)
-Fixpoint ok_suffix (run : list (id * bool)) : list id :=
+Fixpoint ok_suffix (run : list (list id * bool)) : list (list id) :=
   match run with
   | [] => []
   | (n, ok) :: rest => let s := ok_suffix rest in
                        if ok && (Nat.eqb (length s) (length rest)) then n :: s else s
   end.
 
-Fixpoint drop_until (n : id) (l : list id) : list id :=
-  match l with [] => [] | y :: l' => if y =? n then l else drop_until n l' end.
-
-(* blk is a prefix of batch; all its deletes succeeded except possibly the last; shorter only if the last failed *)
-Fixpoint block_matches (batch : list id) (blk : list (id * bool)) : bool :=
+(* blk is a prefix of batch (each delete names a node the corresponding instance backs); all its deletes succeeded
+   except possibly the last; it is shorter than the batch only if its last delete failed *)
+Fixpoint block_matches (batch : list (list id)) (blk : list (id * bool)) : bool :=
   match blk with
   | [] => match batch with [] => true | _ => false end
   | (n, ok) :: blk' =>
     match batch with
     | [] => false
-    | b :: batch' => (b =? n) && (if ok then block_matches batch' blk' else match blk' with [] => true | _ => false end)
+    | b :: batch' => mem_id n b && (if ok then block_matches batch' blk' else match blk' with [] => true | _ => false end)
     end
   end.
 
-Definition block_ok (run : list (id * bool)) (blk : list (id * bool)) : bool :=
+(* some suffix of the accepted run is the batch this block deletes *)
+Fixpoint some_suffix_matches (batch : list (list id)) (blk : list (id * bool)) : bool :=
+  block_matches batch blk || match batch with [] => false | _ :: batch' => some_suffix_matches batch' blk end.
+
+Definition block_ok (run : list (list id * bool)) (blk : list (id * bool)) : bool :=
   match blk with
   | [] => true
-  | (n, _) :: _ => block_matches (drop_until n (ok_suffix run)) blk
+  | _ => some_suffix_matches (ok_suffix run) blk
   end.
 
-Fixpoint check_C19_calls (x : gctx) (calls : list call) (run blk : list (id * bool)) : bool :=
+Fixpoint check_C19_calls (x : gctx) (calls : list call) (run : list (list id * bool)) (blk : list (id * bool)) : bool :=
   match calls with
   | [] => block_ok run blk
   | CA (ATermInAsg inst decr ok) :: rest =>
-      decr &&
-      match node_of_instance x inst with
-      | None => false
-      | Some n => match blk with
-                  | [] => check_C19_calls x rest (run ++ [(n_name n, ok)]) []
-                  | _ => block_ok run blk && check_C19_calls x rest [(n_name n, ok)] []
-                  end
+      decr && negb (match backed_names x inst with [] => true | _ => false end) &&
+      match blk with
+      | [] => check_C19_calls x rest (run ++ [(backed_names x inst, ok)]) []
+      | _ => block_ok run blk && check_C19_calls x rest [(backed_names x inst, ok)] []
       end
   | CK (KDelete n ok) :: rest => check_C19_calls x rest run (blk ++ [(n, ok)])
   | _ :: rest => block_ok run blk && check_C19_calls x rest [] []
@@ -352,9 +374,14 @@ Fixpoint check_C19_calls (x : gctx) (calls : list call) (run blk : list (id * bo
 
 Definition check_C19_group (x : gctx) (calls : list call) : bool := check_C19_calls x calls [] [].
 
+(* ---------- well-formed views: node names are unique (a Kubernetes invariant the nodupb-style claims rest on) ---------- *)
+Definition wf_ctx (x : gctx) : bool := nodupb (map n_name (x_nodes x)).
+
 (* ---------- all groups of a scan ---------- *)
 Definition find_group (s : snapshot) (name : id) : option group_in :=
   find (fun g => o_name (gi_opts g) =? name) (s_groups s).
 
 Definition for_groups (f : gctx -> list call -> bool) (s : snapshot) (obs : list (id * list call)) : bool :=
   forallb (fun nc => match find_group s (fst nc) with Some g => f (mk_ctx s g) (snd nc) | None => false end) obs.
+
+Definition wf_snapshot (s : snapshot) : bool := forallb (fun g => wf_ctx (mk_ctx s g)) (s_groups s).
